@@ -40,8 +40,8 @@ def make_run_one(cap, weights, pre, hold, exits, victims):
     n = len(weights)
 
     def run_one(chooser):
-        loop = vloop.VLoop(chooser)
-        loop.sort_ready_in_state = True  # every order is explored (bound=None)
+        loop = vloopx.XLoop(chooser)
+        loop.ext_mode = True  # FIFO ready queue; every yield of a harness body is an external event (see vloopx)
         sem = WeightedSemaphore(cap)
         phase = [('new', 0)] * n
         st = {'held': 0, 'viol': None, 'sig': None, 'arrivals': [], 'kinds': {}, 'waited': 0, 'unexpected': None}
@@ -55,9 +55,9 @@ def make_run_one(cap, weights, pre, hold, exits, victims):
         async def job(j):
             w = weights[j]
             try:
-                for i in range(pre[j]):
+                for i in range(pre[j] + 1):  # the arrival itself is an external event: jobs arrive in any order
                     phase[j] = ('pre', i + 1)
-                    await asyncio.sleep(0)
+                    await vloopx.ext_yield()
                 phase[j] = ('wait', 0)
                 st['arrivals'].append(j)
                 async with sem.acquire_manager(w):
@@ -70,7 +70,7 @@ def make_run_one(cap, weights, pre, hold, exits, victims):
                     try:
                         for i in range(hold[j]):
                             phase[j] = ('body', i + 1)
-                            await asyncio.sleep(0)
+                            await vloopx.ext_yield()
                         if exits[j] == 'raise':
                             raise Boom()
                     finally:
@@ -101,6 +101,7 @@ def make_run_one(cap, weights, pre, hold, exits, victims):
             return K_AFTER
 
         async def controller(v):
+            await vloopx.ext_yield()  # the cancellation arrives at a moment of the environment's choosing
             st['kinds'][v] = classify(v)
             tasks[v].cancel()
 
@@ -236,16 +237,16 @@ SELFCHECK = [
 
 
 def _selfcheck_pruning():
-    """State-hash pruning must not lose behaviours: same outcome set and same violation signatures unpruned."""
+    """State-hash pruning must not lose behaviours: every outcome / violation class found by the plain search (capped, it
+    explodes quickly) must be found by the pruned one; equal sets when the plain search completed."""
     for cfg in SELFCHECK:
         a = vloop.explore(make_run_one, cfg, bound=None, procs=1)
-        b = vloop.explore(make_run_one, cfg, bound=None, procs=1, prune=False)
-        if set(a.outcomes) != set(b.outcomes):
-            raise RuntimeError(f'state-hash pruning lost outcomes for {cfg}: {set(b.outcomes) ^ set(a.outcomes)}')
-        if {v[0] for v in a.violations} != {v[0] for v in b.violations}:
+        b = vloop.explore(make_run_one, cfg, bound=None, procs=1, prune=False, cap=8000)
+        if not set(b.outcomes) <= set(a.outcomes) or (not b.capped and set(a.outcomes) != set(b.outcomes)):
+            raise RuntimeError(f'state-hash pruning lost outcomes for {cfg}: {sorted(set(b.outcomes) ^ set(a.outcomes))[:3]}')
+        va, vb = {v[0] for v in a.violations}, {v[0] for v in b.violations}
+        if not vb <= va or (not b.capped and va != vb):
             raise RuntimeError(f'state-hash pruning changed the violation set for {cfg}')
-        if a.executions > b.executions:
-            raise RuntimeError('pruned search larger than unpruned search')
 
 
 def check(tier, seed, procs):
@@ -284,7 +285,7 @@ def check(tier, seed, procs):
         'executions_with_a_waiter': waited,
         'executions_by_cancellation_point': dict(sorted(kinds.items())),
         'executions_blocked_with_full_capacity_free(not judged)': starved,
-        'deviation_bound': 'unbounded (every order of runnable callbacks, state-hash pruned)',
+        'deviation_bound': 'unbounded (every order of external-event completions over a FIFO ready queue, state-hash pruned)',
         'bounds': ('capacity 3; 2-3 jobs (multisets of job descriptions); weights 1..3; hold 0..1 yields; body returns/raises; '
                    '0-1 cancelled job' if tier == 'quick' else
                    'capacity 3: 2-4 jobs (multisets of job descriptions), weights 1..3, hold 0..2 yields (0..1 for 4 jobs), body '
@@ -302,7 +303,10 @@ def check(tier, seed, procs):
         'coverage': cov,
         'violations': violations,
         'assumptions': [
-            'every execution is the real WeightedSemaphore/_AcquireManager on a virtual asyncio loop; scheduling points are event-loop callbacks',
+            'every execution is the real WeightedSemaphore/_AcquireManager on a virtual asyncio loop',
+            'only schedules real asyncio can produce: the ready queue is FIFO (a new task takes its first step in creation order); the '
+            'environment decides when each external event completes (job arrival, each yield of a body, the cancellation) and appends '
+            'that completion at the end of the ready queue; every such order is explored',
             'weights never exceed capacity (acquire asserts it)',
             'cancellation is Task.cancel() issued by a controller task at every step boundary; bodies only yield, return or raise',
             'no wake-up order or liveness beyond "the returned capacity can be acquired again" is demanded (the statement fixes none)',
